@@ -8,6 +8,7 @@ class C10(core.Prop):
     level = "fault_enumeration"
     sizes = {"quick": 32, "thorough": 300}
     max_workers = 6
+    ready = True
     technique = ("property-based testing (Hypothesis) + exhaustive fault-schedule enumeration per generated program: invariants over the "
                  "kernel-ordered log of every faulty run (validity predicate built on a logical replay of the log)")
     rule = ("A case is ONE generated program: 2-3 actors on 2-3 hosts (1-4 cores, some with a disk), 1-3 links (SHARED / FATPIPE / SPLITDUPLEX, "
